@@ -75,7 +75,10 @@ Next == /\ l <= Len(Rec)
            CASE e.ev = "Expr" -> /\ ex' = (IF e.i = 0 THEN <<>> ELSE ex) \o <<[e |-> e.e, tid |-> e.tid, decl |-> e.decl, info |-> e.info]>>
                                  /\ reg' = IF e.i = 0 THEN <<>> ELSE reg
                                  /\ solo' = IF e.i = 0 THEN <<>> ELSE solo
-             [] e.ev = "Solo" -> (Check = "C01" => WellFormed(e.types) /\ e.id < Len(e.types)) /\ solo' = e /\ UNCHANGED <<ex, reg>>
+             [] e.ev = "Solo" -> /\ Check = "C01" => WellFormed(e.types) /\ e.id < Len(e.types)
+                                 \* C05 on a FRESH registry that meets this type first: one entry per distinct type reachable from it
+                                 /\ Check = "C05" => Len(e.types) = Cardinality({NF(x) : x \in Closure({ex[e.i + 1].e})})
+                                 /\ solo' = e /\ UNCHANGED <<ex, reg>>
              [] e.ev = "Reg" -> AcceptReg(e) /\ reg' = e /\ ex' = ex /\ solo' = solo
              [] e.ev = "Matrix" -> AcceptMatrix(e) /\ UNCHANGED <<ex, reg, solo>>
              [] e.ev = "Value" -> AcceptValue(e) /\ UNCHANGED <<ex, reg, solo>>
